@@ -30,6 +30,23 @@ rule, then on every other rule, then again on the first rule (x 3 tree-decomposi
 factorize_fgg three times in a row: all results for one input must be exactly equal, including the names of the freshly
 introduced nonterminals (hidden state across calls, e.g. a mutable default argument, shows up as drifting names).
 
+Part 1c (presentation variants and shared semiring objects; BOUND3).  The same frame / reproducibility checks on
+  - the SPARSE presentation of a grammar: every weight tensor re-presented by sparsify() as the PatternedTensor with the
+    same dense value that states its structure (one-hot, block, diagonal, single row, constant stored with stride 0);
+  - the EVIDENCE family: recursive grammars of G with one more rule for a nonterminal X of a cyclic SCC, conditioned on
+    two one-hot evidence terminals about one node (contradictory = structurally zero, or consistent), see
+    evidence_grammars();
+  - the EXTRAS presentation: the grammar's tables hold a node label with a domain, three terminals with factors and a
+    nonterminal that NO RULE USES (declared through add_domain / add_edge_label / new_finite_factor);
+  - DERIVED queries: sum_products[Log,newton], sum_product[Real,linear], and sum_product / sum_products / fgg_to_json /
+    factorize_fgg / conjoin_hrgs applied to the result of factorize_fgg (which shares its factor and domain tables with
+    the input grammar);
+  - HISTORIES WITH SHARED SEMIRING OBJECTS (check_shared_histories): a semiring is an argument like any other; one
+    object per semiring is passed to every query of a history, and after every call (i) the grammars' deep snapshot is
+    unchanged, (ii) whatever the semiring objects, the semiring classes and the solver modules held before the call is
+    unchanged (lazy initialisation is allowed, overwriting is not), (iii) the result equals the result of the same
+    query on freshly built objects with a brand-new semiring.
+
 Part 2 (clone independence).  For PatternedTensors of the typed-pattern generator T (every pattern without a zero-size
 axis of the shapes below, float64, special values included): each in-place operation neg_, abs_, relu_, log_, log1p_,
 nan_to_num_, *= 2.0, /= 2.0, copy_(other) applied to t.clone() leaves t's physical storage bytes, version counter, axes,
@@ -60,6 +77,18 @@ KMAX = 30
 BOUND1 = ("grammars of G (non-recursive and recursive with a finite reference; <= 3 nonterminals, <= 2 rules each, <= 3 nodes / "
           "3 edges per rhs, arity <= 2, domain sizes 1..3) x weights {plain, requires_grad} x every ordered pair of the "
           "19 (21 with gradients) queries")
+BOUND3 = ("presentation variants of the grammars above and of the evidence family (every convergent hand-written recursive family "
+          "of G x every nonterminal of a cyclic SCC x a rule conditioned on two one-hot evidence terminals about one node: "
+          "contradictory / consistent, on an internal / the first external node, listed first / last); variants: sparse (weights "
+          "re-presented as one-hot / block / diagonal / stride-0 PatternedTensors with the same dense value), extras (a node label "
+          "with a domain, three terminals with factors and a nonterminal that no rule uses), derived (7 more queries: "
+          "sum_products[Log,newton], sum_product[Real,linear], and sum_product / sum_products / fgg_to_json / factorize_fgg / "
+          "conjoin_hrgs applied to factorize_fgg's result); quick: on the extras variant every query paired with itself + the ordered "
+          "pairs of 6 core queries, requires_grad alternating (thorough: both, all ordered pairs on the evidence family and on every fourth "
+          "extras grammar); shared-semiring histories "
+          "(evidence family, and sparse+extras on every second grammar; thorough: every grammar): for each of the semiring-taking "
+          "queries (+ factorize_fgg, fgg_to_json, conjoin_hrgs) q0 the sequence q0, then every query that receives the same "
+          "semiring object or none; and the whole list twice")
 BOUND2 = ("PatternedTensors: every quick-tier pattern of T for the shapes (), (2,), (3,), (2,2), (2,3), (6,), (1,2,3) "
           "(thorough: all shapes of numel <= 6, ndim <= 3) without a zero-size axis, float64 data with special values, "
           "storage contiguous / expanded / transposed x 9 in-place operations; MultiTensors with 1-3 blocks x 4 operations")
@@ -170,14 +199,110 @@ def field_class(path: str) -> str:
 # objects and queries
 # ------------------------------------------------------------------------------------------
 
-def make_objects(recipe, requires_grad: bool, explicit: bool) -> dict:
-    fgg = G.build_fgg(recipe, "Real", "float64", {"ids": "explicit"} if explicit else None)
+def sparsify(t, zero):
+    """dense torch tensor -> a PatternedTensor with the SAME dense value that states as much of the tensor's structure
+    as a pattern can: a vector whose non-zero entries form one proper contiguous block becomes (before + block + after)
+    with default `zero` (a single entry: a one-hot with a 0-dim physical, what json_to_weights builds for evidence); a
+    square matrix that is zero off the diagonal becomes a diagonal pattern (physical = the diagonal; stride-0 storage when
+    the diagonal is constant, like PatternedTensor.eye); a matrix with a single non-zero row becomes a one-hot first axis;
+    a constant tensor is stored once and expanded (stride 0).  Everything else stays dense."""
+    import torch
+    from fggs.indices import PatternedTensor, PhysicalAxis, SumAxis, productAxis
+    unit = productAxis(())
+    def block(n, a, b):        # axis of size n whose positions a..b-1 are backed
+        if b - a == 1:
+            return None, SumAxis(a, unit, n - b)
+        k = PhysicalAxis(b - a)
+        return k, SumAxis(a, k, n - b)
+    def const(x):
+        return bool((x == x.reshape(-1)[0]).all()) if x.numel() else False
+    nz = (t != zero) if t.dtype != torch.bool else t.clone()
+    if t.dim() == 1 and t.size(0) >= 2:
+        n = t.size(0)
+        idx = [i for i in range(n) if bool(nz[i])]
+        if idx and idx == list(range(idx[0], idx[-1] + 1)) and len(idx) < n:
+            k, ax = block(n, idx[0], idx[-1] + 1)
+            phys = t[idx[0]].clone() if k is None else t[idx[0]:idx[-1] + 1].clone()
+            return PatternedTensor(phys, () if k is None else (k,), (ax,), zero)
+        if const(t):
+            k = PhysicalAxis(n)
+            return PatternedTensor(t[0].clone().expand(n), (k,), (k,), zero)
+    if t.dim() == 2 and t.size(0) >= 2 and t.size(1) >= 2:
+        n, m = t.size()
+        if n == m and not bool((nz & ~torch.eye(n, dtype=torch.bool)).any()) and bool(nz.any()):
+            k = PhysicalAxis(n)
+            d = t.diagonal().clone()
+            return PatternedTensor(d[0].clone().expand(n) if const(d) else d, (k,), (k, k), zero)
+        rows = [i for i in range(n) if bool(nz[i].any())]
+        if len(rows) == 1:
+            k = PhysicalAxis(m)
+            return PatternedTensor(t[rows[0]].clone(), (k,), (SumAxis(rows[0], unit, n - rows[0] - 1), k), zero)
+        if const(t):
+            k1, k2 = PhysicalAxis(n), PhysicalAxis(m)
+            return PatternedTensor(t[0, 0].clone().expand(n, m), (k1, k2), (k1, k2), zero)
+    return PatternedTensor(t)
+
+
+EXTRA_LABELS = ("__UnusedN", "__unused_t0", "__unused_t1", "__unused_t2", "__UnusedX")
+
+
+def build_variant(recipe, sname: str, dtype: str, presentation: Optional[dict], variant: dict):
+    """gen_fgg's builder, then the presentation variants of this checker (none of them changes what the grammar means):
+      variant["sparse"]   every terminal's weights are re-presented by sparsify() (same dense value, structural zeros /
+                          one-hots / diagonals / stride-0 storage stated as a pattern)
+      variant["extras"]   the grammar's tables get entries that NO RULE USES: a node label with a domain, three terminals
+                          with factors (arity 0; over a used node label; over the unused and a used node label) and a
+                          nonterminal without rules -- declared with add_domain / add_edge_label / new_finite_factor"""
+    import torch
+    import fggs
+    fgg = G.build_fgg(recipe, sname, dtype, presentation)
+    dt = torch.bool if sname == "Bool" else G._dtype(dtype)
+    zero = G.make_semiring(sname, dtype).from_int(0).item()
+    if variant.get("sparse"):
+        for f in fgg.factors.values():
+            f.weights = sparsify(f.weights.to_dense().clone(), zero)
+    if variant.get("extras"):
+        conv = lambda w: G.map_nested(lambda x: G.convert_weight(x, sname), w)
+        nl0 = next(iter(fgg.node_labels()))
+        d0 = fgg.domains[nl0.name].size()
+        un = fggs.NodeLabel(EXTRA_LABELS[0])
+        fgg.add_domain(un, fggs.FiniteDomain(["p", "q"]) if (presentation or {}).get("domains") == "finite" else fggs.RangeDomain(2))
+        for name, typ, w in ((EXTRA_LABELS[1], [], 0.75), (EXTRA_LABELS[2], [nl0], [0.25, 1.5, 0.0][:d0]),
+                             (EXTRA_LABELS[3], [un, nl0], [[0.5, 0.0, 2.0][:d0], [1.0, 0.125, 0.25][:d0]])):
+            fgg.add_edge_label(fggs.EdgeLabel(name, typ, is_terminal=True))
+            fgg.new_finite_factor(name, torch.tensor(conv(w), dtype=dt))
+        fgg.add_edge_label(fggs.EdgeLabel(EXTRA_LABELS[4], [nl0], is_nonterminal=True))
+    return fgg
+
+
+def new_semirings() -> dict:
+    """one semiring OBJECT per semiring name, to be passed to every query of a history"""
+    return {s: G.make_semiring(s, "bool" if s == "Bool" else "float64") for s in G.SEMIRINGS}
+
+
+def _sr(objs, sname: str, d: str):
+    """the semiring object of a query: a new one per call, or -- in an object set with shared semirings -- THE object of
+    that name (looked up at call time)"""
+    srs = objs.get("semirings")
+    return srs[sname] if srs is not None else G.make_semiring(sname, d)
+
+
+def make_objects(recipe, requires_grad: bool, explicit: bool, variant: Optional[dict] = None) -> dict:
+    variant = dict(variant or {})
+    if not (variant.get("sparse") or variant.get("extras")):
+        bld = lambda s, d, p: G.build_fgg(recipe, s, d, p)
+    else:
+        bld = lambda s, d, p: build_variant(recipe, s, d, p, variant)
+    fgg = bld("Real", "float64", {"ids": "explicit"} if explicit else None)
     if requires_grad:
         for f in fgg.factors.values():
             f.weights.requires_grad_()
-    return {"fgg": fgg, "fgg_bool": G.build_fgg(recipe, "Bool", "bool"),
-            "other": G.build_fgg(recipe, "Real", "float64", {"ids": "explicit", "domains": "finite"}),
-            "recipe": recipe, "requires_grad": requires_grad}
+    objs = {"fgg": fgg, "fgg_bool": bld("Bool", "bool", None),
+            "other": bld("Real", "float64", {"ids": "explicit", "domains": "finite"}),
+            "recipe": recipe, "requires_grad": requires_grad, "variant": variant}
+    if variant.get("shared_semirings"):
+        objs["semirings"] = new_semirings()
+    return objs
 
 
 def known_ids(objs) -> set:
@@ -229,6 +354,20 @@ def norm_deriv(d, objs):
             tuple((e.id, norm_deriv(d.children[e], objs)) for e in edges if e in d.children))
 
 
+def norm_json_of_derived(j: dict) -> str:
+    """fgg_to_json of an FGG that a query has just built: the writers list the nodes and edges of a rule in the order of
+    str(id), and the ids of freshly built nodes and edges are object addresses, so two equal grammars built one after the
+    other are written with their nodes / edges in different orders.  Compared are therefore, per rule, the lhs, the bag
+    of node labels and the bag of edges (label, labels of the attached nodes); everything else literally."""
+    j = json.loads(json.dumps(j))
+    for r in j.get("grammar", {}).get("rules", []):
+        rhs = r["rhs"]
+        labs = [n["label"] for n in rhs["nodes"]]
+        r["rhs"] = {"nodes": sorted(labs), "externals": [labs[i] for i in rhs["externals"]],
+                    "edges": sorted([e["label"], [labs[i] for i in e["attachments"]]] for e in rhs["edges"])}
+    return json.dumps(j, sort_keys=True)
+
+
 def queries(objs) -> List[Tuple[str, Callable[[], Any]]]:
     import torch
     import fggs
@@ -238,14 +377,14 @@ def queries(objs) -> List[Tuple[str, Callable[[], Any]]]:
     def sp(sname, m):
         g = fb if sname == "Bool" else fgg
         d = "bool" if sname == "Bool" else "float64"
-        return lambda: norm_pt(fggs.sum_product(g, method=m, semiring=G.make_semiring(sname, d), kmax=KMAX))
+        return lambda: norm_pt(fggs.sum_product(g, method=m, semiring=_sr(objs, sname, d), kmax=KMAX))
     for sname in G.SEMIRINGS:
         for m in ("fixed-point", "newton"):
             qs.append((f"sum_product[{sname},{m}]", sp(sname, m)))
     qs.append(("sum_products", lambda: sorted((el.name, norm_pt(v)) for el, v in fggs.sum_products(
-        fgg, method="fixed-point", semiring=G.make_semiring("Real", "float64"), kmax=KMAX).items())))
+        fgg, method="fixed-point", semiring=_sr(objs, "Real", "float64"), kmax=KMAX).items())))
     asst = tuple(0 for _ in fgg.start.type)
-    qs.append(("viterbi", lambda: norm_deriv(fggs.viterbi(fgg, asst, semiring=G.make_semiring("Viterbi", "float64"), kmax=KMAX), objs)))
+    qs.append(("viterbi", lambda: norm_deriv(fggs.viterbi(fgg, asst, semiring=_sr(objs, "Viterbi", "float64"), kmax=KMAX), objs)))
     qs.append(("factorize_rule", lambda: [[norm_rule(x, known) for x in fggs.factorize_rule(r)] for r in fgg.all_rules()]))
     qs.append(("factorize_hrg", lambda: norm_hrg(fggs.factorize_hrg(fgg), known)))
     for meth in ("min_fill", "quickbb", "acb"):
@@ -257,7 +396,7 @@ def queries(objs) -> List[Tuple[str, Callable[[], Any]]]:
     if objs["requires_grad"]:
         def grad(sname, m):
             def f():
-                z = fggs.sum_product(fgg, method=m, semiring=G.make_semiring(sname, "float64"), kmax=KMAX).to_dense()
+                z = fggs.sum_product(fgg, method=m, semiring=_sr(objs, sname, "float64"), kmax=KMAX).to_dense()
                 mask = torch.isfinite(z)
                 loss = z[mask].sum()
                 ws = [fac.weights.physical for fac in fgg.factors.values()]
@@ -268,17 +407,38 @@ def queries(objs) -> List[Tuple[str, Callable[[], Any]]]:
             return f
         qs.append(("sum_product+backward[Real,newton]", grad("Real", "newton")))
         qs.append(("sum_product+backward[Log,fixed-point]", grad("Log", "fixed-point")))
+    if objs.get("variant", {}).get("derived"):
+        # more option combinations, and queries on a DERIVED object: factorize_fgg's result shares its factor and domain
+        # tables with the input, so whatever a later query does to the result's tables it does to the caller's grammar
+        qs.append(("sum_products[Log,newton]", lambda: sorted((el.name, norm_pt(v)) for el, v in fggs.sum_products(
+            fgg, method="newton", semiring=_sr(objs, "Log", "float64"), kmax=KMAX).items())))
+        qs.append(("sum_product[Real,linear]", sp("Real", "linear")))
+        fz = lambda: fggs.factorize_fgg(fgg)
+        qs.append(("sum_product[Real,newton]@factorize_fgg", lambda: norm_pt(fggs.sum_product(
+            fz(), method="newton", semiring=_sr(objs, "Real", "float64"), kmax=KMAX))))
+        qs.append(("sum_products[Real,fixed-point]@factorize_fgg", lambda: sorted((el.name, norm_pt(v)) for el, v in fggs.sum_products(
+            fz(), method="fixed-point", semiring=_sr(objs, "Real", "float64"), kmax=KMAX).items())))
+        qs.append(("fgg_to_json@factorize_fgg", lambda: norm_json_of_derived(fggs.fgg_to_json(fz()))))
+        qs.append(("factorize_fgg@factorize_fgg", lambda: norm_hrg(fggs.factorize_fgg(fz(), method="quickbb"), known)))
+        qs.append(("conjoin_hrgs@factorize_fgg", lambda: norm_hrg(fggs.conjoin_hrgs(fz(), other), known)))
     return qs
+
+
+call_stats: Dict[str, int] = {}       # outcome counts of call() in this process (read and reset by the variant tasks)
 
 
 def call(q: Callable[[], Any]):
     with warnings.catch_warnings():
         warnings.simplefilter("ignore")
         try:
-            return ("ok", q())
+            r = ("ok", q())
+            call_stats["calls_ok"] = call_stats.get("calls_ok", 0) + 1
+            return r
         except RecursionError:
             return ("exception", "RecursionError")
         except Exception as e:  # noqa
+            k = "calls_raising:" + type(e).__name__
+            call_stats[k] = call_stats.get(k, 0) + 1
             return ("exception", type(e).__name__)
 
 
@@ -334,13 +494,22 @@ def check_pair(objs, qs, i: int, j: int) -> List[dict]:
     return out
 
 
-def check_grammar(recipe, requires_grad: bool, explicit: bool, pairs: Optional[List[Tuple[str, str]]] = None):
-    """all ordered pairs (or the named ones).  -> (violations, number of pairs, number of queries)"""
-    objs = make_objects(recipe, requires_grad, explicit)
+CORE = ("sum_product[Real,fixed-point]", "sum_products", "factorize_fgg[min_fill]", "conjoin_hrgs[other]", "fgg_to_json",
+        "sum_product[Real,newton]@factorize_fgg")
+
+
+def check_grammar(recipe, requires_grad: bool, explicit: bool, pairs=None, variant: Optional[dict] = None):
+    """all ordered pairs (or the named ones; pairs == "self": every query paired with itself; "core": these and every
+    ordered pair of the CORE queries).  -> (violations, number of pairs, number of queries)"""
+    objs = make_objects(recipe, requires_grad, explicit, variant)
     qs = queries(objs)
     names = [n for n, _ in qs]
     fails: List[dict] = []
     n = 0
+    if pairs == "core":
+        pairs = [(a, a) for a in names] + [(a, b) for a in CORE for b in CORE if a != b]
+    elif pairs == "self":
+        pairs = [(a, a) for a in names]
     todo = [(i, j) for i in range(len(qs)) for j in range(len(qs))] if pairs is None else \
         [(names.index(a), names.index(b)) for a, b in pairs if a in names and b in names]
     self_irreproducible: Dict[str, bool] = {}
@@ -352,26 +521,28 @@ def check_grammar(recipe, requires_grad: bool, explicit: bool, pairs: Optional[L
                 if f["key"] is None:
                     n1 = f["q1"]
                     if n1 not in self_irreproducible:
-                        fresh = make_objects(recipe, requires_grad, explicit)
+                        fresh = make_objects(recipe, requires_grad, explicit, variant)
                         fq = dict(queries(fresh))[n1]
                         self_irreproducible[n1] = call(fq) != call(fq)
                     f["key"] = f"irreproducible:{n1}:" + ("by-itself" if self_irreproducible[n1] else f"after:{f['q2']}")
                 f["case"] = {"part": "queries", "recipe": recipe, "requires_grad": requires_grad, "explicit_ids": explicit,
                              "q1": f["q1"], "q2": f["q2"] or f["q1"]}
+                if variant:
+                    f["case"]["variant"] = variant
             fails.extend(fl)
             if any(f["kind"] == "input-mutated" for f in fl):
-                objs = make_objects(recipe, requires_grad, explicit)      # do not let one mutation contaminate later pairs
+                objs = make_objects(recipe, requires_grad, explicit, variant)      # do not let one mutation contaminate later pairs
                 qs = queries(objs)
     return fails, n, len(qs)
 
 
-def check_factorize_sequences(recipe, requires_grad: bool, explicit: bool) -> Tuple[List[dict], int, int]:
+def check_factorize_sequences(recipe, requires_grad: bool, explicit: bool, variant: Optional[dict] = None) -> Tuple[List[dict], int, int]:
     """Hidden state across calls (e.g. a mutable default argument for `labels`): factorize_rule(rule) WITHOUT the labels
     argument, three times in a row on the same rule, then once on every other rule, then again on the first rule --
     all results for one rule must be exactly equal, INCLUDING the names of the freshly introduced nonterminals; the same
     for factorize_hrg / factorize_fgg called three times in a row.  -> (violations, calls, calls that introduced a fresh nonterminal)"""
     import fggs
-    objs = make_objects(recipe, requires_grad, explicit)
+    objs = make_objects(recipe, requires_grad, explicit, variant)
     fgg = objs["fgg"]
     known = known_ids(objs)
     rules = fgg.all_rules()
@@ -389,7 +560,8 @@ def check_factorize_sequences(recipe, requires_grad: bool, explicit: bool) -> Tu
     def record(kind, key, detail, q):
         fails.append({"clause": "reproducible.same_result" if kind == "result-differs" else "frame.inputs_unchanged", "kind": kind,
                       "key": key, "detail": detail, "q1": q, "q2": q,
-                      "case": {"part": "factorize-sequence", "recipe": recipe, "requires_grad": requires_grad, "explicit_ids": explicit}})
+                      "case": dict({"part": "factorize-sequence", "recipe": recipe, "requires_grad": requires_grad, "explicit_ids": explicit},
+                                   **({"variant": variant} if variant else {}))})
     for method in ("min_fill", "quickbb", "acb"):
         kw = {} if method == "min_fill" else {"method": method}
         for i, r in enumerate(rules):
@@ -422,6 +594,209 @@ def check_factorize_sequences(recipe, requires_grad: bool, explicit: bool) -> Tu
         record("input-mutated", f"mutation:factorize-sequence:{field_class(d[0])}", f"after the factorize call sequences: field {d[0]} changed: {d[1]}",
                "factorize_rule")
     return fails, calls, fresh
+
+
+# ------------------------------------------------------------------------------------------
+# part 1c: histories with shared semiring objects (and whatever state hides behind them)
+# ------------------------------------------------------------------------------------------
+
+def _snap_value(v, depth: int = 0):
+    """a comparable description of a piece of library-side state: tensors by dtype / size / stride / storage bytes,
+    containers element-wise, plain values as they are, anything else by its type only"""
+    import torch
+    if isinstance(v, torch.Tensor):
+        return ("tensor", str(v.dtype), tuple(v.size()), tuple(v.stride()), _tbytes(v))
+    if v is None or isinstance(v, (bool, int, str)):
+        return v
+    if isinstance(v, float):
+        return ("float", repr(v))
+    if isinstance(v, (torch.dtype, torch.device)):
+        return ("torch", str(v))
+    if depth < 3 and isinstance(v, dict):
+        return ("dict", tuple((repr(k), _snap_value(x, depth + 1)) for k, x in v.items()))
+    if depth < 3 and isinstance(v, (list, tuple)):
+        return ("seq", tuple(_snap_value(x, depth + 1) for x in v))
+    return ("object", type(v).__name__)
+
+
+def _holds_state(v, depth: int = 0) -> bool:
+    import torch
+    if isinstance(v, torch.Tensor):
+        return True
+    if depth < 3 and isinstance(v, dict):
+        return any(_holds_state(x, depth + 1) for x in v.values())
+    if depth < 3 and isinstance(v, (list, tuple, set)):
+        return any(_holds_state(x, depth + 1) for x in v)
+    return False
+
+
+def snap_state(objs) -> dict:
+    """State that outlives a query but is not one of the grammars: every attribute of every shared semiring object, and
+    every tensor (or container of tensors) stored on a semiring CLASS or at module level in the solver modules."""
+    import fggs
+    out: Dict[str, Any] = {}
+    for name, sr in (objs.get("semirings") or {}).items():
+        out[f"semiring[{name}].id"] = id(sr)
+        for k, v in vars(sr).items():
+            out[f"semiring[{name}].{k}"] = _snap_value(v)
+    import fggs.semirings, fggs.indices, fggs.multi, fggs.sum_product, fggs.viterbi, fggs.factorize   # noqa
+    seen = set()
+    for cls in (fggs.RealSemiring, fggs.LogSemiring, fggs.ViterbiSemiring, fggs.BoolSemiring):
+        for c in cls.__mro__:
+            if c in seen or not c.__module__.startswith("fggs"):
+                continue
+            seen.add(c)
+            for k, v in vars(c).items():
+                if _holds_state(v):
+                    out[f"class[{c.__name__}].{k}"] = _snap_value(v)
+    for mod in (fggs.semirings, fggs.indices, fggs.multi, fggs.sum_product, fggs.viterbi, fggs.factorize):
+        for k, v in vars(mod).items():
+            if not k.startswith("__") and _holds_state(v):
+                out[f"module[{mod.__name__}].{k}"] = _snap_value(v)
+    return out
+
+
+def _stable(a, b) -> bool:
+    """b may have been lazily initialised or extended since a, but nothing that a already held may have changed"""
+    if a is None:
+        return True
+    if isinstance(a, tuple) and isinstance(b, tuple) and len(a) == 2 and len(b) == 2 and a[0] == b[0] == "dict":
+        db = dict(b[1])
+        return all(k in db and _stable(x, db[k]) for k, x in a[1])
+    if isinstance(a, tuple) and isinstance(b, tuple) and len(a) == 2 and len(b) == 2 and a[0] == b[0] == "seq":
+        return len(b[1]) >= len(a[1]) and all(_stable(x, y) for x, y in zip(a[1], b[1]))
+    return a == b
+
+
+def state_diff(a: dict, b: dict) -> Optional[Tuple[str, str]]:
+    for k in a:
+        if k not in b:
+            return k, "disappeared"
+        if not _stable(a[k], b[k]):
+            va, vb = a[k], b[k]
+            if isinstance(va, tuple) and va and va[0] == "tensor":
+                va = va[:4] + (va[4].hex()[:64],)
+            if isinstance(vb, tuple) and vb and vb[0] == "tensor":
+                vb = vb[:4] + (vb[4].hex()[:64],)
+            return k, f"before {va!r:.300} after {vb!r:.300}"
+    return None
+
+
+def history_names(names: List[str]) -> List[str]:
+    """the queries of a shared-semiring history: everything that takes a semiring, and three that do not"""
+    return [n for n in names if n.startswith(("sum_product", "viterbi")) or n in ("factorize_fgg[min_fill]", "fgg_to_json", "conjoin_hrgs[other]")]
+
+
+def semiring_of(name: str) -> Optional[str]:
+    """the semiring whose (shared) object the query receives; None for a query that takes no semiring"""
+    if name == "viterbi":
+        return "Viterbi"
+    if name == "sum_products":
+        return "Real"
+    for s in G.SEMIRINGS:
+        if f"[{s}," in name:
+            return s
+    return None
+
+
+def default_histories(names: List[str], light_viterbi: bool = False) -> List[List[str]]:
+    """For every query q0: q0 followed by every query that can see what q0 left behind in a semiring OBJECT -- the
+    queries that receive the same semiring object as q0 (q0 itself included) and the ones that take none; for a q0 that
+    takes no semiring: every query (viterbi excepted, it comes after the Viterbi queries).  Then the whole list twice
+    (state at class or module level is visible to every later query).  light_viterbi (quick tier, recursive grammars,
+    where viterbi mostly ends in a slow RecursionError): viterbi only follows itself and is in the doubled list."""
+    out = []
+    for q0 in names:
+        s0 = semiring_of(q0)
+        out.append([q0] + [n for n in names if (semiring_of(n) in (s0, None) if s0 is not None else n != "viterbi")
+                           and not (light_viterbi and n == "viterbi" and q0 != "viterbi")])
+    out.append(names + names)
+    return out
+
+
+def check_shared_histories(recipe, requires_grad: bool, variant: dict, histories: Optional[List[List[str]]] = None):
+    """A program creates ONE semiring object per semiring and uses it for a sequence of queries on the same grammars.
+    REF[q] = the result of q on a freshly built object set with a brand-new semiring object (one object set per query).
+    Histories: default_histories() -- for every query q0 the sequence q0, then every query that receives the same
+    semiring object or none, and once the whole list twice; every history starts with new semiring objects and runs on
+    the same grammar objects as the histories before it.  After EVERY call:
+      frame        the deep snapshot of the three grammars is unchanged;
+      state        nothing that the semiring objects (or the semiring classes / solver modules) held before the call has
+                   changed: an attribute may be initialised lazily (None -> value, new attribute, a container may grow),
+                   but a tensor stored there keeps its bytes and a value once set stays;
+      reproducible the result is exactly REF[q] (same comparison as part 1).
+    Ids are explicit so that descriptions are comparable across object sets.  -> (violations, calls, histories)"""
+    variant = dict(variant, shared_semirings=True)
+    fresh_variant = {k: v for k, v in variant.items() if k != "shared_semirings"}      # (light_viterbi only selects histories)
+    objs = make_objects(recipe, requires_grad, True, variant)
+    qs = dict(queries(objs))
+    names = history_names(list(qs))
+    ref: Dict[str, Any] = {}
+    def reference(name):
+        if name not in ref:
+            o = make_objects(recipe, requires_grad, True, fresh_variant)    # all three grammars stay alive during the call
+            ref[name] = call(dict(queries(o))[name])                        # (implicit ids are object addresses)
+            del o
+        return ref[name]
+    if histories is None:
+        for n in names:
+            reference(n)
+        histories = default_histories(names, bool(variant.get("light_viterbi")) and G.is_recursive(recipe))
+    fails: List[dict] = []
+    calls = 0
+    def record(clause, kind, key, detail, hist, q):
+        fails.append({"clause": clause, "kind": kind, "key": key, "detail": detail, "q1": hist[0], "q2": q,
+                      "case": {"part": "shared-history", "recipe": recipe, "requires_grad": requires_grad,
+                               "variant": fresh_variant, "history": list(hist)}})
+    for h in histories:
+        if any(n not in qs for n in h):
+            continue
+        objs["semirings"] = new_semirings()
+        s0, z0 = snapshot(objs), snap_state(objs)
+        for step, name in enumerate(h):
+            calls += 1
+            r = call(qs[name])
+            hist = h[:step + 1]
+            bad = False
+            d = snap_diff(s0, snapshot(objs))
+            if d:
+                record("frame.inputs_unchanged", "input-mutated", f"mutation:{name}:{field_class(d[0])}",
+                       f"shared semirings, history {hist}: snapshot field {d[0]} changed: {d[1]}", hist, name)
+                bad = True
+            z1 = snap_state(objs)
+            d = state_diff(z0, z1)
+            if d and not bad:
+                record("frame.semiring_state_stable", "state-mutated", f"state:{name}:{field_class('x.' + d[0])}",
+                       f"history {hist} with one semiring object per semiring: {d[0]} changed during {name}: {d[1]}", hist, name)
+                bad = True
+            if not d:
+                z0 = z1             # what was initialised during this call is pinned from now on
+            if not bad and r != reference(name):
+                record("reproducible.same_result", "result-differs", f"history-dependent:{name}:after:{h[0] if step else 'nothing'}",
+                       f"history {hist} with one semiring object per semiring: the last call differs from the same query on "
+                       f"fresh objects with a new semiring: {_first_diff(reference(name), r)}", hist, name)
+                bad = True
+            if bad:
+                objs = make_objects(recipe, requires_grad, True, variant)      # leave no contaminated object behind
+                qs = dict(queries(objs))
+                break
+    return fails, calls, len(histories)
+
+
+def shorten_history(f: dict) -> dict:
+    """a shorter history that shows the same failure (same key), if there is one: [first, last] / [last, last] / [last]"""
+    c = f["case"]
+    h = c["history"]
+    for cand in ([h[-1]], [h[-1], h[-1]], [h[0], h[-1]], [h[0], h[-1], h[-1]]):
+        if len(cand) >= len(h):
+            continue
+        fl, _, _ = check_shared_histories(c["recipe"], c["requires_grad"], c["variant"], [cand])
+        for g in fl:
+            if g["key"].split(":after:")[0] == f["key"].split(":after:")[0]:
+                g["key"] = f["key"]
+                g["detail"] += f"   [shortened from the history {h}]"
+                return g
+    return f
 
 
 # ------------------------------------------------------------------------------------------
@@ -577,6 +952,26 @@ def _task(task):
         fl, n, nq = check_grammar(recipe, rg, explicit)
         fl2, calls, fresh = check_factorize_sequences(recipe, rg, explicit)
         return kind, fl + fl2, n, {"queries": nq, "factorize_sequence_calls": calls, "factorize_calls_with_fresh_nonterminal": fresh}
+    if kind == "variant":
+        _, recipe, rg, explicit, variant, pairs, hist = task
+        call_stats.clear()
+        fl, n, nq = check_grammar(recipe, rg, explicit, pairs, variant) if pairs != [] else ([], 0, 0)
+        st = {"variant_queries": nq, "variant_pairs": n}
+        if variant.get("extras") and pairs != []:
+            fl2, calls, fresh = check_factorize_sequences(recipe, rg, explicit, variant)
+            fl = fl + fl2
+            st["variant_factorize_sequence_calls"] = calls
+        if hist:
+            fl3, calls, nh = check_shared_histories(recipe, rg, variant)
+            fl3 = [shorten_history(f) for f in fl3[:2]] + fl3[2:]
+            fl = fl + fl3
+            n += calls
+            st["shared_history_calls"] = calls
+            st["shared_histories"] = nh
+        for r in set(call_stats):
+            st["variant_" + r] = call_stats[r]
+        call_stats.clear()
+        return kind, fl, n, st
     if kind == "clone":
         fails = []
         n = 0
@@ -631,6 +1026,122 @@ def grammars(tier: str, rng) -> List[dict]:
     return out
 
 
+def with_evidence(recipe, lhs: str, p: int, q: int, where: str, first: bool) -> Optional[dict]:
+    """The recipe plus one rule for `lhs` that is conditioned on two pieces of evidence about ONE node n: unary one-hot
+    terminals ev<p>(n) and ev<q>(n).  p != q is contradictory evidence -- the rule is STRUCTURALLY zero (einsum's
+    unification of the two one-hot axes fails), so the meaning of the grammar is unchanged; p == q is consistent evidence.
+    where = "internal": n is a new internal node, the external nodes of the new rule carry no edge;  "external": n is
+    the first external node (lhs must have arity >= 1).  first: the new rule is listed before / after lhs's other rules."""
+    g = json.loads(json.dumps(recipe))
+    typ = g["edge_labels"][lhs]["type"]
+    nodes = list(typ)
+    if where == "external":
+        if not typ or g["node_labels"][typ[0]] < 2:
+            return None
+        n, lab = 0, typ[0]
+    else:
+        lab = next((l for l, size in g["node_labels"].items() if size >= 2), None)
+        if lab is None:
+            return None
+        n = len(nodes)
+        nodes.append(lab)
+    size = g["node_labels"][lab]
+    if max(p, q) >= size:
+        return None
+    for i in {p, q}:
+        name = f"ev{i}_{lab}"
+        g["edge_labels"][name] = {"type": [lab], "terminal": True}
+        g["weights"][name] = [1.0 if j == i else 0.0 for j in range(size)]
+    rule = {"lhs": lhs, "nodes": nodes, "edges": [{"label": f"ev{p}_{lab}", "att": [n]}, {"label": f"ev{q}_{lab}", "att": [n]}],
+            "ext": list(range(len(typ)))}
+    k = next(i for i, r in enumerate(g["rules"]) if r["lhs"] == lhs) if first else \
+        max(i for i, r in enumerate(g["rules"]) if r["lhs"] == lhs) + 1
+    g["rules"].insert(k, rule)
+    g["meta"] = dict(g.get("meta") or {})
+    g["meta"]["family"] = (f"evidence[{'contradictory' if p != q else 'consistent'},{where},{'first' if first else 'last'} rule of {lhs}]:"
+                           + str(g["meta"].get("family", "")))
+    G.validate(g, bound=False)
+    return g
+
+
+def evidence_grammars(tier: str) -> List[dict]:
+    """Recursive grammars conditioned on evidence: every convergent hand-written recursive family of G x every nonterminal
+    X of a cyclic SCC x an evidence rule for X (contradictory / consistent; on a new internal node / on X's first external
+    node; listed first / last).  With contradictory evidence listed first, the first thing a fixed-point iteration
+    learns about X is a structural zero.  quick: one grammar per family and weight setting is kept for a third of the
+    families and all placements are spread over them; thorough: everything."""
+    bases = []
+    seen_fam = set()
+    for g in G.handwritten_recursive():
+        meta = g.get("meta") or {}
+        fam = meta.get("family", "")
+        if meta.get("divergent_in") or meta.get("semirings") or meta.get("budgets") or not g["weights"]:
+            continue
+        stem = fam.rstrip("0123456789.-")
+        if tier == "quick" and stem in seen_fam:
+            continue
+        if G.reference_sum_products(g, "Real", max_iter=2000).status != "finite":
+            continue
+        seen_fam.add(stem)
+        bases.append(g)
+    out: List[dict] = []
+    seen = set()
+    k = 0
+    for g in bases:
+        for comp in G.sccs(g):
+            if not G.scc_is_cyclic(g, comp):
+                continue
+            for x in comp:
+                placements = [(0, 1, "internal", True), (1, 0, "internal", False), (0, 0, "internal", True),
+                              (0, 1, "external", True), (1, 1, "external", False)]
+                # X has no base case of its own (each of its rules uses a nonterminal of its SCC): in the first iteration
+                # the evidence rule is ALL that is known about X
+                dependent = all(any(e["label"] in comp for e in r["edges"]) for r in g["rules"] if r["lhs"] == x)
+                if tier == "quick":
+                    # the contradictory-first placement always; contradictory-last too when X is dependent, else one of
+                    # the others in turn
+                    placements = [placements[0], placements[1] if dependent else placements[1 + k % 4]]
+                    k += 1
+                for (p, q, where, first) in placements:
+                    e = with_evidence(g, x, p, q, where, first)
+                    if e is None:
+                        continue
+                    e["meta"]["dependent_nonterminal"] = dependent
+                    c = G.canonical(e)
+                    if c not in seen:
+                        seen.add(c)
+                        out.append(e)
+    if tier == "quick":     # the cap of variant_tasks keeps the dependent ones, and of the others every kind of placement in turn
+        rank: Dict[str, int] = {}
+        def turn(e):
+            kind = e["meta"]["family"].split("]")[0].rsplit(" rule of", 1)[0]
+            rank[kind] = rank.get(kind, 0) + 1
+            return rank[kind]
+        order = {id(e): (not e["meta"]["dependent_nonterminal"], 0 if e["meta"]["dependent_nonterminal"] else turn(e)) for e in out}
+        out.sort(key=lambda e: order[id(e)])
+    return out
+
+
+def variant_tasks(tier: str, recipes: List[dict]) -> List[tuple]:
+    """("variant", recipe, requires_grad, explicit, variant, pairs, histories?) -- see BOUND3"""
+    tasks: List[tuple] = []
+    both = tier != "quick"
+    ev = evidence_grammars(tier)
+    if tier == "quick":
+        ev = ev[:22]
+    for k, g in enumerate(ev):
+        for rg in ((False, True) if both else (k % 2 == 1,)):
+            tasks.append(("variant", g, rg, True, dict({"sparse": True, "derived": True}, **({} if both else {"light_viterbi": True})),
+                          None if both else [], True))
+    for k, g in enumerate(recipes):
+        for rg in ((False, True) if both else (k % 2 == 0,)):
+            tasks.append(("variant", g, rg, k % 2 == 1, {"extras": True, "derived": True}, None if both and k % 4 == 0 else "core", False))
+            if both or k % 2 == 0:
+                tasks.append(("variant", g, not rg if not both else rg, True,
+                              dict({"extras": True, "sparse": True, "derived": True}, **({} if both else {"light_viterbi": True})), [], True))
+    return tasks
+
+
 def clone_cases(tier: str, rng) -> List[Tuple[dict, dict]]:
     from vf.bounded import gen_pt as T
     shapes = [(), (2,), (3,), (2, 2), (2, 3), (6,), (1, 2, 3)] if tier == "quick" else T.all_shapes(6, 3)
@@ -652,8 +1163,14 @@ def clone_cases(tier: str, rng) -> List[Tuple[dict, dict]]:
 
 def _what(f: dict) -> str:
     c = f["case"]
+    if c["part"] == "shared-history":
+        fam = (c["recipe"].get("meta") or {}).get("family", "")
+        return (f"{f['kind']} [{f['key']}] history {c['history']} with one semiring object per semiring on grammar {fam}, "
+                f"requires_grad={c['requires_grad']}, variant {json.dumps(c['variant'], sort_keys=True)}")
     if c["part"] in ("queries", "factorize-sequence"):
         fam = (c["recipe"].get("meta") or {}).get("family", "")
+        if c.get("variant"):
+            fam += " variant " + json.dumps(c["variant"], sort_keys=True)
         return f"{f['kind']} [{f['key']}] pair ({c.get('q1', f.get('q1'))}, {c.get('q2', f.get('q2'))}) on grammar {fam}, requires_grad={c['requires_grad']}"
     if c["part"] == "clone":
         return f"{f['kind']} [{f['key']}] PatternedTensor pool {c['recipe']['pool']} vaxes {json.dumps(c['recipe']['vaxes'])} storage {c['recipe']['storage']}"
@@ -672,6 +1189,8 @@ def run_bounded(ctx: Ctx) -> Report:
     for k, g in enumerate(recipes):
         for rg in (False, True):
             tasks.append(("grammar", g, rg, k % 2 == 0))
+    vts = variant_tasks(ctx.tier, recipes)
+    tasks.extend(vts)
     cc = clone_cases(ctx.tier, ctx.rng("c18-clone"))
     per = max(1, len(cc) // 48)
     for i in range(0, len(cc), per):
@@ -689,7 +1208,7 @@ def run_bounded(ctx: Ctx) -> Report:
             results = list(pool.imap(_task, tasks, chunksize=1))
     else:
         results = [_task(t) for t in tasks]
-    counts = {"grammar": 0, "clone": 0, "mt": 0}
+    counts = {"grammar": 0, "clone": 0, "mt": 0, "variant": 0}
     fails: List[dict] = []
     nq = 0
     stats: Dict[str, int] = {}
@@ -698,7 +1217,7 @@ def run_bounded(ctx: Ctx) -> Report:
         fails.extend(fl)
         nq = max(nq, st.get("queries", 0))
         for k, v in st.items():
-            if k != "queries":
+            if k not in ("queries", "variant_queries"):
                 stats[k] = stats.get(k, 0) + v
     per_key: Dict[str, int] = {}
     for f in fails:
@@ -718,6 +1237,21 @@ def run_bounded(ctx: Ctx) -> Report:
                "factorize_sequence_calls": stats.get("factorize_sequence_calls", 0),
                "factorize_calls_with_fresh_nonterminal": stats.get("factorize_calls_with_fresh_nonterminal", 0),
                "violations_per_key": {k: v for k, v in vk.items() if not k.startswith(("clone", "multitensor"))}}))
+    vrec = [t[1] for t in vts]
+    rep.bounded.append(Bounded(
+        function=("the same queries on presentation variants (patterned weights, table entries no rule uses, queries on factorize_fgg's "
+                  "result) and in histories that pass ONE semiring object per semiring to every query"),
+        bound=BOUND3, cases=counts["variant"], distinct_nontrivial=len({(G.canonical(t[1]), t[2], json.dumps(t[4], sort_keys=True)) for t in vts}),
+        rule=("a case is one ordered pair of queries (as above) or one call of a shared-semiring history (snapshot of the grammars "
+              "and of the semiring / class / module state, call, compare with the snapshot and with the result of the same query "
+              "on freshly built objects); distinct = distinct (canonical recipe, requires_grad, variant) object sets"),
+        samples=[{"recipe": t[1], "requires_grad": t[2], "variant": t[4]} for t in vts[:2]], exhaustive=False,
+        extra={"object_sets": len(vts), "evidence_grammars": len({G.canonical(t[1]) for t in vts if t[4].get("sparse") and not t[4].get("extras")}),
+               "pairs": stats.get("variant_pairs", 0), "shared_histories": stats.get("shared_histories", 0),
+               "shared_history_calls": stats.get("shared_history_calls", 0),
+               "factorize_sequence_calls": stats.get("variant_factorize_sequence_calls", 0),
+               "call_outcomes": {k[len("variant_"):]: v for k, v in sorted(stats.items()) if k.startswith("variant_calls_")}}))
+    del vrec
     rep.bounded.append(Bounded(
         function="PatternedTensor.clone / MultiTensor.clone: in-place operations on the clone never change the source",
         bound=BOUND2, cases=counts["clone"] + counts["mt"], distinct_nontrivial=len(cc) + len(mts),
@@ -736,9 +1270,11 @@ def replay_case(case: dict) -> bool:
     torch.set_num_threads(1)
     part = case["part"]
     if part == "queries":
-        fl, _, _ = check_grammar(case["recipe"], case["requires_grad"], case["explicit_ids"], [(case["q1"], case["q2"])])
+        fl, _, _ = check_grammar(case["recipe"], case["requires_grad"], case["explicit_ids"], [(case["q1"], case["q2"])], case.get("variant"))
     elif part == "factorize-sequence":
-        fl, _, _ = check_factorize_sequences(case["recipe"], case["requires_grad"], case["explicit_ids"])
+        fl, _, _ = check_factorize_sequences(case["recipe"], case["requires_grad"], case["explicit_ids"], case.get("variant"))
+    elif part == "shared-history":
+        fl, _, _ = check_shared_histories(case["recipe"], case["requires_grad"], case["variant"], [case["history"]])
     elif part == "clone":
         f = check_clone_pt(case["recipe"], case["other"], case["op"])
         fl = [f] if f else []
